@@ -62,7 +62,7 @@ def bound_reaction(rng, rx, pvals):
     """bounded dynamics: a reaction with reactants never has more products than reactants (immediate + delayed);
     a reaction without reactants has a bounded rate (constant or non-proportional Hill)"""
     d = rx.get("delay")
-    nre = len(rx["reactants"]) + (len(d["reactants"]) if d else 0)
+    nre = len(rx["reactants"])      # delayed consumption comes too late to bound growth
     if nre == 0:
         if rx["type"] not in ("massaction", "hillpositive", "hillnegative"):
             rx["type"] = "massaction"; rx["params"] = {"k": rng.choice([0.1, 0.25, 0.5, 1.0])}
